@@ -278,6 +278,22 @@ def commitFinP (E : Env) (p : PSt Node VH) (fid : Nat) : Out Node VH :=
     let p2 := { p1 with mem := { m1 with root := f.root, lastMarker := none } }
     appendAndStore E f.writes f.delta p2 [.guardWrite, .poisonCheck true, .rootCheck true, .rootSet]
 
+/-- `rollback.commit_nonblocking(delta)` once both locks are held (then it is `Rollback::commit`); nothing without a delta -/
+def rbCommitOpt (E : Env) (d : Writes VH) (p : PSt Node VH) : Bool × PSt Node VH × List Step :=
+  if p.mem.rollbackOn then rbCommit E d p else (true, p, [])
+
+/-- the tail of `try_commit_nonblocking` once the root check passed and the rollback locks are free: the append (`Err` poisons),
+`shared.root = …; shared.last_commit_marker = None;`, `nomt.store.commit(..)?; Ok(None)` -/
+def tryTail (E : Env) (ws delta : Writes VH) (root : Node) (p1 : PSt Node VH) (t1 : List Step) : Out Node VH :=
+  match rbCommitOpt E delta p1 with
+  | (false, q, ta) =>
+    if E.Q.rbErrNoPoison then ⟨.err, q, t1 ++ ta⟩
+    else ⟨.err, { q with poisoned := true }, t1 ++ ta ++ [.poison]⟩
+  | (true, q, ta) =>
+    let q2 := { q with mem := { q.mem with root := root, lastMarker := none } }
+    let (r, q', ts) := storeCommit E true ws q2
+    ⟨r, q', t1 ++ ta ++ [.rootSet] ++ ts⟩
+
 /-- `FinishedSession::try_commit_nonblocking` -/
 def tryCommitFinP (E : Env) (p : PSt Node VH) (fid : Nat) : Out Node VH :=
   -- `try_write()`: `None` → `Ok(Some(self))`
@@ -291,7 +307,7 @@ def tryCommitFinP (E : Env) (p : PSt Node VH) (fid : Nat) : Out Node VH :=
     if E.Q.rbBeforeRootCheck then
       -- F1 order: `commit_nonblocking(delta)?` first, then root check + root set in one block
       if m1.rollbackOn && !E.rbLockFree then ⟨.busy, p, t0 ++ [.rbLockTry false]⟩ else
-      match (if m1.rollbackOn then rbCommit E f.delta p1 else (true, p1, [])) with
+      match rbCommitOpt E f.delta p1 with
       | (false, q, ta) =>
         if E.Q.rbErrNoPoison then ⟨.err, q, t0 ++ ta⟩
         else ⟨.err, { q with poisoned := true }, t0 ++ ta ++ [.poison]⟩
@@ -303,18 +319,9 @@ def tryCommitFinP (E : Env) (p : PSt Node VH) (fid : Nat) : Out Node VH :=
     else
     -- root check (the root is not yet set)
     if m1.root ≠ f.prevRoot then ⟨.err, p1, t0 ++ [.rootCheck false]⟩ else
-    let t1 := t0 ++ [.rootCheck true]
-    -- `rollback.commit_nonblocking(rollback_delta)`: `Err` poisons; `Ok(Some(delta))` hands everything back
-    if m1.rollbackOn && !E.rbLockFree then ⟨.busy, p, t1 ++ [.rbLockTry false]⟩ else
-    match (if m1.rollbackOn then rbCommit E f.delta p1 else (true, p1, [])) with
-    | (false, q, ta) =>
-      if E.Q.rbErrNoPoison then ⟨.err, q, t1 ++ ta⟩
-      else ⟨.err, { q with poisoned := true }, t1 ++ ta ++ [.poison]⟩
-    | (true, q, ta) =>
-      -- `shared.root = …; shared.last_commit_marker = None;`  then `nomt.store.commit(..)?; Ok(None)`
-      let q2 := { q with mem := { q.mem with root := f.root, lastMarker := none } }
-      let (r, q', ts) := storeCommit E true f.writes q2
-      ⟨r, q', t1 ++ ta ++ [.rootSet] ++ ts⟩
+    -- `rollback.commit_nonblocking(rollback_delta)`: `Ok(Some(delta))` hands everything back
+    if m1.rollbackOn && !E.rbLockFree then ⟨.busy, p, t0 ++ [.rootCheck true, .rbLockTry false]⟩ else
+    tryTail E f.writes f.delta f.root p1 (t0 ++ [.rootCheck true])
 
 /-- the body of both overlay commits from the write guard on -/
 def commitOvBody (E : Env) (p : PSt Node VH) (oid : Nat) (o : Ov Node VH) (t : List Step) : Out Node VH :=
